@@ -154,6 +154,25 @@ def read_with_reader(cid, source, mode="yield", until=None, stop_after=None):
     return obs
 
 
+def read_with_rows(cid, source, mode="yield", until=None):
+    """Drives cutplace.rows(): the reader is used as context manager inside the generator, so row errors, container
+    errors and the end-of-data verdict all arrive as 'the exception that ended the iteration'."""
+    import cutplace
+    from cutplace import errors
+
+    obs = Observation()
+    try:
+        for item in cutplace.rows(cid, source, on_error=mode, validate_until=until):
+            if isinstance(item, Exception):
+                obs.items.append(("error", item, snapshot(item)))
+            else:
+                obs.items.append(("row", item))
+        obs.completed = True
+    except errors.CutplaceError as error:
+        obs.raised = error
+    return obs
+
+
 def describe_items(items):
     out = []
     for it in items:
